@@ -3452,6 +3452,10 @@ class ToImplied(todict.PrintNode):
             fmt = self.func._fmtargs[argname]["fmtpy"]
             if self.func.options.PY_array_arg == "numpy":
                 return wformat("PyArray_SIZE({py_var})", fmt)
+            arg = self.func.ast.find_arg_by_name(argname)
+            if arg is not None and arg.typemap.base == "vector":
+                # A std::vector is created from the list, no size_var.
+                return wformat("{cxx_var}.size()", fmt)
             else:
                 return fmt.size_var
         elif argname == "len":
